@@ -367,7 +367,8 @@ def normalise(res, alpn):
                      "end": round(r.get("end", -1), 6)})
     return {"wire": wire, "timeline": sorted(timeline.items()), "closed_at": closed, "apps": apps,
             "handler_done": None if res["handler_done"] is None else round(res["handler_done"], 6),
-            "handler_error": (None if res["handler_error"] is None else ("cancelled" if "ancel" in res["handler_error"] else res["handler_error"])), "leftovers": res["leftovers"]}
+            "handler_error": (None if res["handler_error"] is None else ("cancelled" if "ancel" in res["handler_error"] else res["handler_error"])), "leftovers": res["leftovers"],
+            "recycle": res.get("recycle")}
 
 
 def session_case(seed):
@@ -398,16 +399,18 @@ def session_case(seed):
     plan = [[x for st in steps for x in ((("sleep", 0.0071), st) if st[0] in ("send", "send!", "raise", "raise-nested", "raise-cancelled", "return") else (st,))]
             for steps in plan]
     T = rng.choice([5.0, 5.0, 1.0])
+    # the worker's request budget (max_requests): whether this connection's requests exhaust it must not depend on the worker
+    mx = random.Random(seed ^ 0xB0D6E7).choice([None, None, 1, 2, 3, 4])
     out = {}
     for backend, run in (("asyncio", W.run_asyncio), ("trio", W.run_trio)):
         cfg = R.make_config(())
         cfg._log = R.RecLog([])
         cfg.keep_alive_timeout = T
-        res = run(scripted(plan), cfg, script, alpn=alpn, tail=120.0)
+        res = run(scripted(plan), cfg, script, alpn=alpn, tail=120.0, max_requests=mx)
         out[backend] = normalise(res, alpn)
-    desc = {"seed": seed, "kind": kind, "T": T, "steps": len(script), "instances": len(out["asyncio"]["apps"])}
+    desc = {"seed": seed, "kind": kind, "T": T, "max_requests": mx, "steps": len(script), "instances": len(out["asyncio"]["apps"])}
     fails = []
-    for key in ("apps", "wire", "closed_at", "handler_done", "handler_error", "leftovers", "timeline"):
+    for key in ("apps", "wire", "closed_at", "handler_done", "handler_error", "leftovers", "timeline", "recycle"):
         if out["asyncio"][key] != out["trio"][key]:
             a, t = out["asyncio"][key], out["trio"][key]
             sig = "workers-differ:" + key
